@@ -80,8 +80,16 @@ func c08Scrub() {
 	}
 }
 
+// c08Opts: the context options under test. "set": one search path and argv[0]; "empty": the zero
+// ContextOpts (contexts created without search paths or arguments must be isolated too).
+var c08Opts = "set"
+
 func c08prepare(p c08prog, tag int) *c08run {
-	ctx := py.NewContext(py.ContextOpts{SysArgs: []string{"prog"}, SysPaths: []string{"."}})
+	opts := py.ContextOpts{SysArgs: []string{"prog"}, SysPaths: []string{"."}}
+	if c08Opts == "empty" {
+		opts = py.ContextOpts{}
+	}
+	ctx := py.NewContext(opts)
 	vhm, err := ctx.ModuleInit(py.GetModuleImpl("vh"))
 	if err != nil {
 		panic(err)
@@ -117,36 +125,41 @@ func c08Run(rc *core.RunCtx) {
 	}
 	// (a) sequential leak: all ordered pairs (thorough: triples) in distinct contexts
 	rc.Part = "sequential"
-	for _, a := range P {
-		for _, b := range P {
-			if rc.Expired() || rc.Done() {
-				return
+	for _, optv := range []string{"set", "empty"} {
+		for _, a := range P {
+			for _, b := range P {
+				if rc.Expired() || rc.Done() {
+					return
+				}
+				if !rc.Take() {
+					continue
+				}
+				a, b := a, b
+				optv := optv
+				fields := core.Fields{"part": "sequential", "first": a.name, "second": b.name, "opts": optv}
+				input := "context 1 runs " + a.name + " (TAG=1), then context 2 runs " + b.name + " (TAG=2); ContextOpts " + optv
+				rc.Guard(fields, func() string { return input }, func() {
+					c08Opts = optv
+					defer func() { c08Opts = "set" }()
+					c08Scrub()
+					r1 := c08prepare(a, 1)
+					l1 := r1.exec()
+					r2 := c08prepare(b, 2)
+					l2 := r2.exec()
+					r1.ctx.Close()
+					r2.ctx.Close()
+					rc.Eval("sequential", "seq:"+optv+":"+a.name+">"+b.name)
+					if rc.WantSample() && rc.Index()%29 == 0 {
+						rc.Sample(map[string]string{"part": "sequential", "first": a.name, "second": b.name, "second_log": l2})
+					}
+					if !c08Match(l1, expect(a, 1)) {
+						rc.Deviate(core.Deviation{Fields: core.Fields{"part": "sequential", "first": "-", "second": a.name}, Input: a.name + " alone", Expected: expect(a, 1), Observed: l1, Sig: "leak-into:" + a.name})
+					}
+					if !c08Match(l2, expect(b, 2)) {
+						rc.Deviate(core.Deviation{Fields: fields, Input: input + "\n" + b.src, Expected: expect(b, 2), Observed: l2, Sig: "leak-into:" + b.name})
+					}
+				})
 			}
-			if !rc.Take() {
-				continue
-			}
-			a, b := a, b
-			fields := core.Fields{"part": "sequential", "first": a.name, "second": b.name}
-			input := "context 1 runs " + a.name + " (TAG=1), then context 2 runs " + b.name + " (TAG=2)"
-			rc.Guard(fields, func() string { return input }, func() {
-				c08Scrub()
-				r1 := c08prepare(a, 1)
-				l1 := r1.exec()
-				r2 := c08prepare(b, 2)
-				l2 := r2.exec()
-				r1.ctx.Close()
-				r2.ctx.Close()
-				rc.Eval("sequential", "seq:"+a.name+">"+b.name)
-				if rc.WantSample() && rc.Index()%29 == 0 {
-					rc.Sample(map[string]string{"part": "sequential", "first": a.name, "second": b.name, "second_log": l2})
-				}
-				if !c08Match(l1, expect(a, 1)) {
-					rc.Deviate(core.Deviation{Fields: core.Fields{"part": "sequential", "first": "-", "second": a.name}, Input: a.name + " alone", Expected: expect(a, 1), Observed: l1, Sig: "leak-into:" + a.name})
-				}
-				if !c08Match(l2, expect(b, 2)) {
-					rc.Deviate(core.Deviation{Fields: fields, Input: input + "\n" + b.src, Expected: expect(b, 2), Observed: l2, Sig: "leak-into:" + b.name})
-				}
-			})
 		}
 	}
 	if !rc.Quick() {
@@ -283,8 +296,15 @@ func c08ExpectedLog(p c08prog, tag int) string {
 	case "global":
 		return "('pre','unset');('post'," + itoa(tag+1) + ")"
 	case "syspath":
+		if c08Opts == "empty" {
+			return "('pre',[]);('post',['p" + t + "'])"
+		}
 		return "('pre',['.']);('post',['.','p" + t + "'])"
 	case "sysargv":
+		if c08Opts == "empty" {
+			// append makes the list ['<tag>'], then argv[0] is overwritten
+			return "('pre',[]);('post',['prog" + t + "'])"
+		}
 		return "('pre',['prog']);('post',['prog" + t + "','" + t + "'])"
 	case "builtin":
 		return "('pre',2);('post'," + t + ")"
